@@ -3,7 +3,8 @@
 One Hypothesis strategy per implemented opcode (the opcodes that the ``from_bytes`` dispatch of RRS / LP / TMP / RCP
 implements), fields in range only.  Every case is built from fields with the library constructors, serialised, and
  (R)  compared octet-wise with the independent frame reference vp/refs/hytera_ref.py (service octet with the reliable bit,
-      opcode octets, length field in the protocol's endianness == payload octets present, checksum, 0x03, len()),
+      opcode octets, length field in the protocol's endianness == payload octets present, checksum, 0x03, len(); for RRS / LP /
+      TMP also the payload octets against the layout reference: field order, widths, zero-padded fixed-width GPS text),
  (RT) parsed back through HDAP.from_bytes: same class, same octets when serialised again, equal field dump,
 and the same two clauses are evaluated for the PDU nested in HRNP(DATA) and in HSTRP with 0..4 options.
 """
@@ -23,13 +24,17 @@ RULE = (
     "1/10000 grid, speed 0..999.99 knots, course 0..359); every case also carries HRNP header fields (version 0..4, block, "
     "source, destination, packet number) and an HSTRP envelope (version, sequence number, type bits, 0..4 options of every "
     "option type with 0..8 data octets, have_options == (k>0)); the oracle evaluates the bare PDU, PDU in HRNP(DATA) and PDU "
-    "in HSTRP.  Sub-check 'transport': HRNP control packets without data and HSTRP datagrams without payload.  Distinct = "
+    "in HSTRP.  Sub-check 'transport': HRNP control packets without data (one third boundary-directed: packet number chosen "
+    "so that the ones-complement sum needs a second end-around carry) and HSTRP datagrams without payload.  Distinct = "
     "hash of the whole case; non-trivial = any flag set (reliable / confirmed / option) or a variable-length field non-empty "
     "or >= 1 HSTRP option."
 )
 ASSUMPTIONS = [
-    "frame reference vp/refs/hytera_ref.py written from the frame descriptions / kaitai specs and validated against 49 "
+    "frame reference vp/refs/hytera_ref.py written from the frame descriptions / kaitai specs and validated against 59 "
     "captured byte strings of the repository's tests (selfcheck at start of every run)",
+    "payload layouts of RRS / LP / TMP (field order, widths, big-endian numbers, zero-padded fixed-width GPS text, NUL fill "
+    "for absent time / date / speed / azimuth) are compared with a layout reference written from the kaitai specs and 10 "
+    "captures; RCP payloads have no independent layout and are covered by framing + round trip only",
     "TMP short-data opcodes (0xAE/0xAF/0xBE/0xBF) and the RCP opcodes 0x0852/0x8852 occur in no capture; their numeric values "
     "are taken from the vendor protocol numbering as reproduced in the library's enums",
     "domain restrictions (documented or demonstrably required by the callers): has_option == (option_data is not None); "
@@ -234,6 +239,40 @@ def expected_opcode_octets(case) -> bytes:
     return RCP_OPS[op].to_bytes(2, "little")
 
 
+def expected_payload(case):
+    """payload octets from the layout reference (RRS, LP, TMP; kaitai specs + captures) or None where no independent layout
+    is available (RCP; GPS speed outside the three-character field)"""
+    p, op, f = case["proto"], case["op"], case["f"]
+    if p == "RRS":
+        return ref.rrs_payload(RRS_OPS[op], f["ip"]["subnet"], f["ip"]["id"], {"Success": 0, "OtherFailure": 1, "PasswordError": 2}.get(f.get("result"), 0),
+                               f.get("renew", 0), {"Online": 0, "Offline": 1}.get(f.get("state"), 0))
+    if p == "LP":
+        if op == "StandardRequest":
+            return ref.lp_payload(LP_OPS[op], f["request_id"], f["ip"]["subnet"], f["ip"]["id"])
+        g = f["gps"]
+        s = g["speed"]
+        if s != 0 and not (s % 10 == 0 and s < 1000):
+            return None
+        date = None if g["date"] is None else (g["date"][2], g["date"][1], g["date"][0])
+        gps = ref.gps_block(g["valid"], g["time"], date, g["ns"], g["lat"], g["ew"], g["lon"], None if s == 0 else f"{s // 100}.{(s // 10) % 10}", g["dir"])
+        return ref.lp_payload(LP_OPS[op], f["request_id"], f["ip"]["subnet"], f["ip"]["id"], {"OK": 0, "PositionMethodFailure": 6, "FormatError": 105}[f["result"]], gps)
+    if p == "TMP":
+        if "text" in f:
+            body = f["text"].encode("utf-16-le")
+        elif "short" in f:
+            body = bytes.fromhex(f["short"])
+        else:
+            body = bytes([TMP_RESULTS[f["result"]]])
+        src = (f["src"]["subnet"], f["src"]["id"]) if "src" in f else None
+        return ref.tmp_payload(TMP_OPS[op], f["request_id"], (f["dst"]["subnet"], f["dst"]["id"]), src, body, None if f["option"] is None else bytes.fromhex(f["option"]))
+    return None
+
+
+# text_message_protocol.ksy result_codes
+TMP_RESULTS = {"OK": 0, "FAIL": 1, "INVALID_PARAMS": 3, "CHANNEL_BUSY": 4, "RX_ONLY": 5, "LOW_BATTERY": 6, "PLL_UNLOCK": 7, "PRIVATE_CALL_NO_ACK": 8,
+               "REPEATER_WAKEUP_FAIL": 9, "NOCONTACT": 10, "TX_DENY": 11, "TX_INTERRUPTED": 12}
+
+
 def build_hstrp(env, payload):
     from okdmr.dmrlib.hytera.pdu.hstrp import HSTRP, HSTRPOptions, HSTRPOptionType, HSTRPPacketType
 
@@ -281,6 +320,9 @@ def oracle_pdu(case):
     if n != len(frame):
         raise Fail("len_equals_octets_produced", n, len(frame))
     check_hdap_frame(case, frame, "")
+    want_payload = expected_payload(case)
+    if want_payload is not None and frame[5:-2] != want_payload:
+        raise Fail("payload_octets_equal_layout_reference", frame[5:-2].hex(), want_payload.hex())
     back = call(HDAP.from_bytes, frame, clause="parse_no_exception")[1]
     if type(back) is not type(pdu):
         raise Fail("parse_gives_same_class", type(back).__name__, type(pdu).__name__)
